@@ -55,14 +55,17 @@ def ReflStatement (cfg : Cfg) : Prop :=
 abbrev LitClean (h : Hint) : Prop := every litClean h = true
 abbrev NoOldUnion (h : Hint) : Prop := every notOldUnion h = true
 abbrev NoEmptyTuple (h : Hint) : Prop := every notEmptyTuple h = true
+/-- no `Mapping[K, V]` (a two-parameter generic the pinned code compares with the subset rule) -/
+abbrev NoUnorderedPair (h : Hint) : Prop := every notMapOf h = true
 /-- all literal values of both hints come from a set on which Python `==` is identity -/
 def LiteralTypesDistinct (h o : Hint) : Prop :=
   ∃ S : Lit → Bool, (∀ a b, S a = true → S b = true → a.pyEq b = true → a = b) ∧
     every (litsIn S) h = true ∧ every (litsIn S) o = true
-/-- `valid_value(v, o)` is decided as typeguard would: typeguard-only admission, or a value that is
-no int / bool / frozenset, or no `float` / `set` class where `isinstance` reaches -/
+/-- `valid_value(v, o)` is decided as typeguard would: typeguard-only admission, or at every position
+`isinstance` reaches (top level, through unions) the value is no int / bool / frozenset or the class is not
+`float` / `set` / `typing.Set`, and no `typing.Any` sits inside a `typing.Union` -/
 abbrev IsinstanceAgrees (cfg : Cfg) (o : Hint) (v : V) : Prop :=
-  (cfg.tgOnly || plainValue v || topPlain o) = true
+  (cfg.tgOnly || agreesAt false v o) = true
 
 /-! ## soundness -/
 
@@ -84,7 +87,8 @@ theorem C04_sound (fuel : Nat) (h o : Hint) (v : V) (hc : LitClean o)
 /-- **C04_sound_partial**, for *every* behaviour including the pinned one, under named hypotheses;
 each hypothesis is needed only while the corresponding switch is off. -/
 theorem C04_sound_partial (cfg : Cfg) (fuel : Nat) (h o : Hint) (v : V)
-    (hlit : LiteralTypesDistinct h o) (hemp : cfg.emptyOtherStrict = true ∨ NoEmptyTuple o)
+    (hlit : LiteralTypesDistinct h o)
+    (hemp : cfg.argsFix = true ∨ (NoEmptyTuple o ∧ NoUnorderedPair o))
     (hag : IsinstanceAgrees cfg o v)
     (hm : ms cfg fuel (.h h) (.h o) = some true) (hv : admits cfg h v = true) :
     admits cfg o v = true := by
@@ -96,14 +100,15 @@ theorem C04_sound_partial (cfg : Cfg) (fuel : Nat) (h o : Hint) (v : V)
     · exact every_imp (litsIn S) litClean (litClean_of_litsIn S hS) o hoS
     · rcases hemp with he | he
       · rw [he]; exact every_true o
-      · exact every_imp notEmptyTuple _ (fun x hx => by simp [hx]) o he
+      · exact every_imp _ _ (fun x hx => by simp only [Bool.and_eq_true] at hx; simp [hx.1, hx.2]) o
+          (every_and _ _ o he.1 he.2)
   rw [admits_eq_tg cfg o v hag]
   exact sound_tg cfg S hS' fuel h o hh ho hm v (admits_imp_tg cfg h v hv)
 
 /-- the patched code (old unions expanded, type-strict leaf equality): literals need no
 hypothesis beyond typeguard's quirk; the `isinstance` / empty-tuple provisos remain -/
 theorem C04_sound_patched (fuel : Nat) (h o : Hint) (v : V) (hc : LitClean o)
-    (hemp : NoEmptyTuple o) (hag : IsinstanceAgrees .patched o v)
+    (hemp : NoEmptyTuple o) (hmap : NoUnorderedPair o) (hag : IsinstanceAgrees .patched o v)
     (hm : ms .patched fuel (.h h) (.h o) = some true) (hv : admits .patched h v = true) :
     admits .patched o v = true := by
   have hS : ∀ a b : Lit, (fun _ => true) a = true → (fun _ => true) b = true →
@@ -112,7 +117,7 @@ theorem C04_sound_patched (fuel : Nat) (h o : Hint) (v : V) (hc : LitClean o)
   have hh : every (litsIn fun _ => true) h = true := every_litsIn_true h
   have ho : every (okOther .patched fun _ => true) o = true :=
     every_and3 _ _ _ o (every_litsIn_true o) hc
-      (every_imp notEmptyTuple _ (fun x hx => by simp [hx]) o hemp)
+      (every_imp _ _ (fun x hx => by simpa [Cfg.patched] using hx) o (every_and _ _ o hemp hmap))
   rw [admits_eq_tg .patched o v hag]
   exact sound_tg .patched _ hS fuel h o hh ho hm v (admits_imp_tg .patched h v hv)
 
@@ -143,6 +148,79 @@ theorem C04_refl (cfg : Cfg) (he : cfg.unionOldExpanded = true) : ReflStatement 
 /-- **C04_refl_partial** (any behaviour) -/
 theorem C04_refl_partial (cfg : Cfg) (h : Hint) (hh : NoOldUnion h) : compare cfg h h = some true :=
   ms_refl cfg _ (.h h) (Or.inr hh) (Nat.le_refl _)
+
+/-! ## the tree as it is now (`Cfg.now`): minimal hypotheses, each one needed, each one an open finding -/
+
+/-- **C04_sound_now**: on the current tree an accepted comparison is sound for every pair of hints of the
+(enlarged) grammar, every value and every fuel, under exactly three provisos on the RECEIVING hint and one on
+the value — `NoEmptyTuple` (KF-C04-4), `NoUnorderedPair` (KF-C04-6), `LitClean` (KF-C04-5, third party),
+`IsinstanceAgrees` (KF-C04-3). `LiteralTypesDistinct` and `NoOldUnion` are discharged by `a851bde` / `972e5e8`. -/
+theorem C04_sound_now (fuel : Nat) (h o : Hint) (v : V) (hc : LitClean o) (hemp : NoEmptyTuple o)
+    (hmap : NoUnorderedPair o) (hag : IsinstanceAgrees .now o v)
+    (hm : ms .now fuel (.h h) (.h o) = some true) (hv : admits .now h v = true) :
+    admits .now o v = true :=
+  C04_sound_patched fuel h o v hc hemp hmap hag hm hv
+
+/-- with the args-rule patch only typeguard's literal quirk and the `isinstance` shortcut remain -/
+theorem C04_sound_args_fixed (fuel : Nat) (h o : Hint) (v : V) (hc : LitClean o)
+    (hag : IsinstanceAgrees .argsFixed o v)
+    (hm : ms .argsFixed fuel (.h h) (.h o) = some true) (hv : admits .argsFixed h v = true) :
+    admits .argsFixed o v = true := by
+  have hS : ∀ a b : Lit, (fun _ => true) a = true → (fun _ => true) b = true →
+      litLeq .argsFixed a b = true → a = b := by
+    intro a b _ _ e; simpa [litLeq, Cfg.argsFixed] using e
+  have hh : every (litsIn fun _ => true) h = true := every_litsIn_true h
+  have ho : every (okOther .argsFixed fun _ => true) o = true :=
+    every_and3 _ _ _ o (every_litsIn_true o) hc
+      (every_imp (fun _ => true) _ (fun x _ => by simp [Cfg.argsFixed]) o (every_true o))
+  rw [admits_eq_tg .argsFixed o v hag]
+  exact sound_tg .argsFixed _ hS fuel h o hh ho hm v (admits_imp_tg .argsFixed h v hv)
+
+/-- **C04_total_now / C04_refl_now**: over the whole grammar, no hypothesis -/
+theorem C04_total_now : TotalStatement .now := C04_total .now rfl
+theorem C04_refl_now : ReflStatement .now := C04_refl .now rfl
+
+/-- `Mapping[str, int] → Mapping[int, str]` is accepted (subset rule), `{"a": 1}` is admitted by the first only -/
+theorem C04_sound_witness_mapping :
+    compare .now (.mapOf (.cls .str) (.cls .int)) (.mapOf (.cls .int) (.cls .str)) = some true ∧
+    admits .now (.mapOf (.cls .str) (.cls .int)) (.d [.s "a"] [.i 1]) = true ∧
+    admits .now (.mapOf (.cls .int) (.cls .str)) (.d [.s "a"] [.i 1]) = false := by decide
+
+/-- `typing.Tuple → tuple[()]` and `tuple[int] → tuple[()]` on the current tree, witness `(1,)` -/
+theorem C04_now_needs_no_empty_tuple :
+    compare .now (.bare .tuple) (.tupleFix []) = some true ∧
+    compare .now (.tupleFix [.cls .int]) (.tupleFix []) = some true ∧
+    admits .now (.bare .tuple) (.t [.i 1]) = true ∧ admits .now (.tupleFix [.cls .int]) (.t [.i 1]) = true ∧
+    admits .now (.tupleFix []) (.t [.i 1]) = false := by decide
+
+theorem C04_now_needs_litclean :
+    compare .now (.literal [.b true]) (.literal [.i 1, .b true]) = some true ∧
+    admits .now (.literal [.b true]) (.b true) = true ∧
+    admits .now (.literal [.i 1, .b true]) (.b true) = false := by decide
+
+/-- `Annotated[float, …] → float` (witness `1`), `set[int] → typing.Set`-free variant `set[int] → set`
+(witness a frozenset), and `Any → Optional[Any]` (witness `1`: `typing.Union`'s instance check asks
+`issubclass(int, Any)`, which is `False`) -/
+theorem C04_now_needs_isinstance_agrees :
+    (compare .now (.annotated (.cls .float)) (.cls .float) = some true ∧
+      admits .now (.annotated (.cls .float)) (.i 1) = true ∧ admits .now (.cls .float) (.i 1) = false) ∧
+    (compare .now (.setOf (.cls .int)) (.cls .set) = some true ∧
+      admits .now (.setOf (.cls .int)) (.fs [.i 1]) = true ∧ admits .now (.cls .set) (.fs [.i 1]) = false) ∧
+    (compare .now .any (.unionOld [.any, .cls .noneT]) = some true ∧
+      admits .now .any (.i 1) = true ∧ admits .now (.unionOld [.any, .cls .noneT]) (.i 1) = false) := by
+  decide
+
+/-- the args-rule patch removes the tuple and the mapping witnesses and keeps what was right -/
+theorem C04_args_fixed_behaviour :
+    compare .argsFixed (.mapOf (.cls .str) (.cls .int)) (.mapOf (.cls .int) (.cls .str)) = some false ∧
+    compare .argsFixed (.mapOf (.cls .str) (.cls .bool)) (.mapOf (.cls .str) (.cls .int)) = some true ∧
+    compare .argsFixed (.bare .tuple) (.tupleFix []) = some false ∧
+    compare .argsFixed (.tupleFix [.cls .int]) (.tupleFix []) = some false ∧
+    compare .argsFixed (.tupleFix []) (.tupleFix []) = some true ∧
+    compare .argsFixed (.tupleFix [.cls .int]) (.bare .tuple) = some true ∧
+    compare .argsFixed (.listOf (.cls .int)) (.bare .list) = some true ∧
+    compare .now (.listOf (.cls .int)) (.bare .list) = some false ∧
+    compare .argsFixed (.literal [.i 1]) (.literal [.i 2, .i 1]) = some true := by decide
 
 /-! ## where the library consults the comparison -/
 
@@ -219,7 +297,8 @@ theorem C04_gate_sound (via : Via) (s r : Chan) (hs hr : Hint) (h1 : s.hint = so
 /-- the same for every behaviour (the tree as it is) under the named hypotheses of `C04_sound_partial` -/
 theorem C04_gate_sound_partial (cfg : Cfg) (via : Via) (s r : Chan) (hs hr : Hint)
     (h1 : s.hint = some hs) (h2 : r.hint = some hr) (h3 : r.strict = true) (v : V)
-    (hlit : LiteralTypesDistinct hs hr) (hemp : cfg.emptyOtherStrict = true ∨ NoEmptyTuple hr)
+    (hlit : LiteralTypesDistinct hs hr)
+    (hemp : cfg.argsFix = true ∨ (NoEmptyTuple hr ∧ NoUnorderedPair hr))
     (hag : IsinstanceAgrees cfg hr v) (hacc : gate cfg via s r = some true)
     (hv : admits cfg hs v = true) : admits cfg hr v = true :=
   C04_sound_partial cfg _ hs hr v hlit hemp hag (gate_strict_typed cfg via s r hs hr h1 h2 h3 hacc) hv
@@ -260,6 +339,13 @@ theorem C04_initiator_rule_unsound : ¬ RuleSound initiatorRule := by
   intro h
   have := (C04_rule_sound_iff initiatorRule).mp h .outConnects false
   simp [initiatorRule] at this
+
+/-- the gate on the current tree -/
+theorem C04_gate_sound_now (via : Via) (s r : Chan) (hs hr : Hint) (h1 : s.hint = some hs)
+    (h2 : r.hint = some hr) (h3 : r.strict = true) (v : V) (hc : LitClean hr) (hemp : NoEmptyTuple hr)
+    (hmap : NoUnorderedPair hr) (hag : IsinstanceAgrees .now hr v)
+    (hacc : gate .now via s r = some true) (hv : admits .now hs v = true) : admits .now hr v = true :=
+  C04_sound_now _ hs hr v hc hemp hmap hag (gate_strict_typed .now via s r hs hr h1 h2 h3 hacc) hv
 
 /-! ## histories: links, `strict_hints` switched afterwards, values pushed through links -/
 
@@ -448,6 +534,18 @@ example : exHist.links = [⟨.recvInp, 1, 3, true⟩, ⟨.outConnects, 2, 1, fal
   decide
 example : exHist.val 3 = some (.b true) := rfl
 
+/-- the enlarged grammar: `typing.Any`, bare `typing` aliases, `Sequence[X]`, `Mapping[K, V]` -/
+def exOutN : Hint := .unionNew [.seqOf (.cls .bool), .mapOf (.cls .str) (.listOf .any), .tupleFix [.cls .int, .any]]
+def exInpN : Hint :=
+  .unionNew [.seqOf (.unionNew [.cls .int, .cls .str]), .mapOf (.cls .sequence) (.cls .list), .bare .tuple,
+    .cls .noneT]
+example : compare .now exOutN exInpN = some true ∧ LitClean exInpN ∧ NoEmptyTuple exInpN := by
+  refine ⟨by decide, by decide, by decide⟩
+example : admits .now exOutN (.s "") = true ∧ admits .now exOutN (.d [.s "k"] [.l [.i 1]]) = true ∧
+    admits .now exOutN (.t [.i 1, .s "x"]) = true := by decide
+example : admits .argsFixed exInpN (.d [.s "k"] [.l [.i 1]]) = true :=
+  C04_sound_args_fixed (size exOutN + size exInpN) exOutN exInpN _ (by decide) (by decide) (by decide) (by decide)
+
 end PwVerif.C04
 
 #print axioms PwVerif.C04.C04_sound
@@ -493,3 +591,13 @@ end PwVerif.C04
 #print axioms PwVerif.C04.C04_now_checked_without_activation
 #print axioms PwVerif.C04.C04_activation_not_rechecked
 #print axioms PwVerif.C04.C04_activation_value_refused
+#print axioms PwVerif.C04.C04_sound_now
+#print axioms PwVerif.C04.C04_sound_args_fixed
+#print axioms PwVerif.C04.C04_total_now
+#print axioms PwVerif.C04.C04_refl_now
+#print axioms PwVerif.C04.C04_sound_witness_mapping
+#print axioms PwVerif.C04.C04_now_needs_no_empty_tuple
+#print axioms PwVerif.C04.C04_now_needs_litclean
+#print axioms PwVerif.C04.C04_now_needs_isinstance_agrees
+#print axioms PwVerif.C04.C04_args_fixed_behaviour
+#print axioms PwVerif.C04.C04_gate_sound_now
